@@ -3,6 +3,7 @@ package props
 import (
 	"fmt"
 	"math/rand/v2"
+	"strings"
 
 	"verifharness/mon"
 	"verifharness/yqx"
@@ -13,6 +14,50 @@ import (
 // (`f(A; B, C)`) belongs to that argument, i.e. it means `f(A; (B, C))`. (`;` and `,` carry the same
 // number in the precedence table, so the table alone does not say this; the grammar of two-argument
 // functions does.) Oracle: both spellings give the same results / the same error status on the document.
+// Interpolation family: the expression inside each `\( ... )` of a string literal is an expression like any
+// other: redundant brackets around it (or inside it) and calls with bracketed arguments change nothing, in the
+// first interpolation of a literal as well as in the later ones.
+func c09InterpCase(w *mon.Worker, r *rand.Rand) mon.Result {
+	doc := "{\"a\": \"x\", \"b\": 3, \"n\": [1, 2, 3], \"m\": {\"k\": \"v\"}}\n"
+	inner := []string{".a", ".b", ".n[1]", ".m.k", ".b + 1", ".n | length", ".n | map(. * 2) | .[1]", ".m | keys | .[0]", ".a | upcase", ".n | join(\"-\")", "\"q\"", ".b * (2 + 1)"}
+	k := 2 + r.IntN(3)
+	var plain, bracketed strings.Builder
+	plain.WriteString("\"")
+	bracketed.WriteString("\"")
+	for i := 0; i < k; i++ {
+		e := inner[r.IntN(len(inner))]
+		sep := []string{"-", " ", ": ", ")(", "(", ")", ""}[r.IntN(7)]
+		plain.WriteString("\\(" + e + ")" + sep)
+		if r.IntN(3) > 0 {
+			e = "(" + e + ")"
+			if r.IntN(4) == 0 {
+				e = "(" + e + ")"
+			}
+		}
+		bracketed.WriteString("\\(" + e + ")" + sep)
+	}
+	plain.WriteString("\"")
+	bracketed.WriteString("\"")
+	a, b := plain.String(), bracketed.String()
+	res := mon.Result{Tags: []string{"family:interpolation", fmt.Sprintf("interpolations:%d", k)}, Nontrivial: a != b}
+	res.Case = map[string]any{"minimal": a, "bracketed": b, "doc": doc}
+	res.Sig = "interp|" + b
+	o1, e1, p1 := yqx.Eval(a, doc, "yaml", "json")
+	o2, e2, p2 := yqx.Eval(b, doc, "yaml", "json")
+	res.Evals += 2
+	if p1 != nil || p2 != nil {
+		res.Verdict, res.Detail = mon.Violated, fmt.Sprintf("panic while evaluating %s / %s: %v %v", a, b, p1, p2)
+		return res
+	}
+	if (e1 != nil) != (e2 != nil) || (e1 == nil && o1 != o2) {
+		res.Verdict = mon.Violated
+		res.Detail = fmt.Sprintf("redundant brackets inside an interpolation change the result\n plain:     %s -> %s (err=%v)\n bracketed: %s -> %s (err=%v)", a, clipStr(o1, 200), e1, b, clipStr(o2, 200), e2)
+		return res
+	}
+	res.Verdict, res.Detail = mon.Held, "same result"
+	return res
+}
+
 func c09ArgCase(w *mon.Worker, r *rand.Rand) mon.Result {
 	doc := "{\"s\": \"cat\", \"t\": \"banana\", \"a\": {\"x\": 0, \"y\": 0, \"z\": [1, 2]}, \"b\": {\"x\": 5}}\n"
 	strs := []string{`"c"`, `"a"`, `"an"`, `"t"`, `"b"`, `"r"`, `""`, `"zz"`, `.s`, `.t`}
